@@ -423,6 +423,66 @@ func c13(run *ev.Run, tier string) {
 	run.Set("get_results_compared", leafCmp)
 	run.Set("packages_built_for_confirmation", built)
 
+	// part 2b: the command line tool uses the same effective settings, also when
+	// the packager is inferred from the target's extension
+	if bin := nfpmBin(run); bin != "" {
+		wd := filepath.Join(dir, "cli")
+		_ = os.MkdirAll(wd, 0o755)
+		c := baseCfg(false)
+		c.Info.RPM.BuildHost = "verif-host"
+		c.Info.Depends = []string{"base-dep"}
+		c.Info.Contents = files.Contents{{Source: payload, Destination: "/opt/ovr/p.txt"}}
+		c.Overrides = map[string]*nfpm.Overridables{}
+		for _, f := range formats {
+			c.Overrides[f] = &nfpm.Overridables{Depends: []string{"dep-for-" + f}}
+		}
+		y, _ := configYAML(c)
+		cfgp := filepath.Join(wd, "nfpm.yaml")
+		_ = os.WriteFile(cfgp, []byte(y), 0o644)
+		for _, f := range []string{"deb", "rpm", "apk", "ipk"} {
+			for _, explicit := range []bool{false, true} {
+				tgt := filepath.Join(wd, fmt.Sprintf("out-%v.%s", explicit, f))
+				args := []string{"package", "-f", cfgp, "-t", tgt}
+				if explicit {
+					args = append(args, "-p", f)
+				}
+				so, se, code, err := runCmd(nil, wd, nil, bin, args...)
+				run.Case(fmt.Sprintf("cli-override|%s|explicit-packager=%v", f, explicit), true)
+				if err != nil || code != 0 {
+					run.Violate("C13/cli/"+f+"/build-failed", map[string]any{"explicit_packager": explicit, "output": ev.Short(string(so)+string(se), 300)})
+					continue
+				}
+				raw, _ := os.ReadFile(tgt)
+				p := dec.Decode(f, raw, false)
+				if len(p.Errs) > 0 {
+					run.Violate("C13/cli/"+f+"/undecodable", map[string]any{"errors": p.Errs})
+					continue
+				}
+				var got []string
+				switch f {
+				case "deb", "ipk":
+					v, _ := p.MetaGet("Depends")
+					got = splitList(v)
+				case "rpm":
+					for _, n := range p.Rpm.Hdr.StrList(dec.RpmTagRequireName) {
+						if !strings.HasPrefix(n, "rpmlib(") {
+							got = append(got, n)
+						}
+					}
+				default:
+					got = dec.GetAll(p.Meta, "depend")
+				}
+				if strings.Join(got, "|") != "dep-for-"+f {
+					kind := "explicit-packager"
+					if !explicit {
+						kind = "packager-inferred-from-extension"
+					}
+					run.Violate("C13/cli/"+f+"/override-block-not-applied/"+kind, map[string]any{"got": got, "want": "dep-for-" + f})
+				}
+			}
+		}
+	}
+
 	// part 3: validation of override keys
 	for _, key := range []string{"nosuchformat", "DEB", "Rpm", "debian", "apk ", "arch", ""} {
 		c := baseCfg(false)
